@@ -329,7 +329,7 @@ fn launch_rdp_thread<S: 'static + Read + Write + Send>(
     Ok(thread::spawn(move || {
         while wait_for_fd(handle as usize) && sync.load(Ordering::Relaxed) {
             let mut guard = rdp_client.lock().unwrap();
-            if let Err(Error::RdpError(e)) = guard.read(|event| {
+            if let Err(error) = guard.read(|event| {
                 match event {
                     RdpEvent::Bitmap(bitmap) => {
                         bitmap_channel.send(bitmap).unwrap();
@@ -337,11 +337,15 @@ fn launch_rdp_thread<S: 'static + Read + Write + Send>(
                     _ => println!("{}: ignore event", APPLICATION_NAME)
                 }
             }) {
-                match e.kind() {
-                    RdpErrorKind::Disconnect => {
-                        println!("{}: Server ask for disconnect", APPLICATION_NAME);
+                // whatever the error is (protocol, io, ssl) the session is over
+                match error {
+                    Error::RdpError(e) => match e.kind() {
+                        RdpErrorKind::Disconnect => {
+                            println!("{}: Server ask for disconnect", APPLICATION_NAME);
+                        },
+                        _ => println!("{}: {:?}", APPLICATION_NAME, e)
                     },
-                    _ => println!("{}: {:?}", APPLICATION_NAME, e)
+                    e => println!("{}: {:?}", APPLICATION_NAME, e)
                 }
                 break;
             }
